@@ -12,7 +12,7 @@ import json
 import os
 
 VERIF = os.path.dirname(os.path.dirname(os.path.abspath(__file__)))
-MAX_BLOCKS = 80
+MAX_BLOCKS = 250
 ROUNDS = 3
 
 
@@ -73,6 +73,28 @@ def alias_renames(j, table=None):
         others = [m2 for m2 in missing if m2 != m and parent_of(m2) == parent_of(m) and table[m2]['sig'] == table[m]['sig']]
         if len(cands) == 1 and not others:
             amap[cands[0]] = m
+    # second pass: a function moved to another module / impl block keeps its name and signature
+    def last_seg(path):
+        par = parent_of(path)
+        return path[len(par) + 2:] if par else path
+    taken = set(amap)
+    for m in missing:
+        if m in amap.values():
+            continue
+        cands = [n for n in new if n not in taken and last_seg(n) == last_seg(m) and signature(cur[n]) == table[m]['sig']]
+        others = [m2 for m2 in missing if m2 != m and m2 not in amap.values() and last_seg(m2) == last_seg(m) and table[m2]['sig'] == table[m]['sig']]
+        if len(cands) == 1 and not others:
+            amap[cands[0]] = m
+            taken.add(cands[0])
+    # third pass: moved *and* renamed -- the signature alone identifies it when it is unique on both sides and not trivial
+    for m in missing:
+        if m in amap.values() or len(table[m]['sig']) < 3:
+            continue
+        cands = [n for n in new if n not in taken and signature(cur[n]) == table[m]['sig']]
+        others = [m2 for m2 in missing if m2 != m and m2 not in amap.values() and table[m2]['sig'] == table[m]['sig']]
+        if len(cands) == 1 and not others:
+            amap[cands[0]] = m
+            taken.add(cands[0])
     if not amap:
         return j, {}
     txt = json.dumps(j)
